@@ -4,6 +4,8 @@ import FitProofs.Codec
 import FitProps.C02
 import FitProps.C17
 import FitProofs.EncodeItems
+import FitProofs.MsgRoundtrip
+import FitModel.Gen.Profile
 /-!
   C06 — Encode then Decode returns the values that were put in.
 
@@ -281,5 +283,86 @@ theorem time_field_roundtrip (P : Profile) (hwf : ProfileWF P = true) (dm : DefM
     simp only [hv, ↓reduceIte, hk]
   rw [hpt]
   simp
+
+/-! ### whole messages -/
+
+/-- unsigned scalar fields satisfy the per-field round-trip condition of `message_roundtrip` -/
+theorem fieldRT_unsigned (P : Profile) (hwf : ProfileWF P = true) (dm : DefMsg) (pf : PField) (w n : Nat)
+    (hgf : P.getField dm.global pf.num = some pf)
+    (hnat : tcKind pf.tcode = .native) (harr : tcArray pf.tcode = false)
+    (hw : (w = 1 ∧ (tcBase pf.tcode = Base.enum ∨ tcBase pf.tcode = Base.byte ∨ tcBase pf.tcode = Base.uint8 ∨
+              tcBase pf.tcode = Base.uint8z)) ∨
+          (w = 2 ∧ (tcBase pf.tcode = Base.uint16 ∨ tcBase pf.tcode = Base.uint16z)) ∨
+          (w = 4 ∧ (tcBase pf.tcode = Base.uint32 ∨ tcBase pf.tcode = Base.uint32z)))
+    (hn : n < 256 ^ w) : FieldRT P dm pf (.sc (.u (8 * w))) (.u n) := by
+  intro msg ts part hpart
+  obtain ⟨part0, h1, _, h3⟩ := unsigned_field_roundtrip P hwf dm pf msg ts w n hgf hnat harr hw hn
+  rw [h1] at hpart; cases hpart
+  exact ⟨ts, h3⟩
+
+theorem fieldRT_signed (P : Profile) (hwf : ProfileWF P = true) (dm : DefMsg) (pf : PField) (w : Nat) (z : Int)
+    (hgf : P.getField dm.global pf.num = some pf)
+    (hnat : tcKind pf.tcode = .native) (harr : tcArray pf.tcode = false)
+    (hw : (w = 1 ∧ tcBase pf.tcode = Base.sint8) ∨ (w = 2 ∧ tcBase pf.tcode = Base.sint16) ∨
+          (w = 4 ∧ tcBase pf.tcode = Base.sint32))
+    (hlo : -(2 ^ (8 * w - 1) : Int) ≤ z) (hhi : z < (2 ^ (8 * w - 1) : Int)) :
+    FieldRT P dm pf (.sc (.i (8 * w))) (.i z) := by
+  intro msg ts part hpart
+  obtain ⟨part0, h1, _, h3⟩ := signed_field_roundtrip P hwf dm pf msg ts w z hgf hnat harr hw hlo hhi
+  rw [h1] at hpart; cases hpart
+  exact ⟨ts, h3⟩
+
+theorem fieldRT_string (P : Profile) (hwf : ProfileWF P = true) (dm : DefMsg) (pf : PField) (b : Bytes)
+    (hgf : P.getField dm.global pf.num = some pf)
+    (hnat : tcKind pf.tcode = .native) (harr : tcArray pf.tcode = false) (hstr : tcBase pf.tcode = Base.string)
+    (hne : b ≠ []) (hfit : b.length < pf.length) (hnul : ∀ x ∈ b, x ≠ 0)
+    (hutf : utf8Valid (b ++ List.replicate (pf.length - b.length) 0) = true) :
+    FieldRT P dm pf (.sc .s) (.s b) := by
+  intro msg ts part hpart
+  obtain ⟨part0, h1, _, h3⟩ := string_field_roundtrip P hwf dm pf msg ts b hgf hnat harr hstr hne hfit hnul hutf
+  rw [h1] at hpart; cases hpart
+  exact ⟨ts, h3⟩
+
+theorem fieldRT_time (P : Profile) (hwf : ProfileWF P = true) (dm : DefMsg) (pf : PField) (secs : Nat)
+    (hgf : P.getField dm.global pf.num = some pf)
+    (hk : tcKind pf.tcode = .timeUTC) (h1 : 0 < secs) (h2 : secs < 4294967295) :
+    FieldRT P dm pf .time (.t secs 0 0) := by
+  intro msg ts part hpart
+  obtain ⟨part0, e1, _, e3⟩ := time_field_roundtrip P hwf dm pf msg ts secs hgf hk h1 h2
+  rw [e1] at hpart; cases hpart
+  exact ⟨_, e3⟩
+
+/-- **Encode then Decode returns the message that was put in** (field loop level): for any message
+    of a known type that `Encode` accepts, whose valid fields are of kinds that round-trip
+    (`FieldRT`: established above for unsigned and signed scalars, strings and date_time values)
+    and whose other fields hold the constructor's invalid values, the decoder — reading the data
+    record with the definition record that `Encode` wrote — rebuilds exactly that message. -/
+theorem message_roundtrip (P : Profile) (hwf : ProfileWF P = true) (arch : Endian) (m : Msg) (bs : Bytes)
+    (pm : PMsg) (hpm : P.msg? m.num = some pm) (hkn : pm.known = true)
+    (h : encodeOne P arch m = .ok bs)
+    (hrt : ∀ pf ∈ pm.fields, ∀ k v, pm.layout[pf.sindex]? = some k → m.vals[pf.sindex]? = some v →
+      isInvalidVal pm pf.sindex v = false → ∀ fs, FieldRT P (defOf arch m.num fs) pf k v)
+    (hinv : ∀ i v, m.vals[i]? = some v → isInvalidVal pm i v = true → pm.invalid[i]? = some v) :
+    ∃ (fs : List PField) (parts : List Bytes),
+      bs = serialize [.defn (defOf arch m.num fs) false, .data 0 parts []] ∧
+      ∀ st : DecSt, ∃ st', stepFields P (defOf arch m.num fs) true (defOf arch m.num fs).fields parts
+        (some ⟨m.num, pm.invalid⟩) st = .ok (some m) st' :=
+  Fit.message_roundtrip P hwf arch m bs pm hpm hkn h hrt hinv
+
+/-- one concrete message through the whole model: `encodeOne`, the 14-byte header and file CRC of
+    `frameBytes`, then the byte-level decoder (header, CRCs, definition, data, routing) -/
+def exampleFileId : Msg := ⟨0, [.u 4, .u 1, .u 2, .u 3, .t 100 0 0, .u 5, .s [65, 66]]⟩
+
+def encodeDecode (m : Msg) : Option Msg :=
+  match encodeOne Gen.profile .le m with
+  | .ok bs =>
+    let o := (decodeSpec Gen.profile {} .full {} (frameBytes 0x20 2115 bs) .eof).1
+    if o.err.isSome then none else o.st.file.map FileSt.fileId
+  | _ => none
+
+set_option maxRecDepth 100000 in
+/-- kernel-evaluated on the regenerated profile: type, manufacturer, product, serial number,
+    time_created, number and product_name all come back -/
+example : encodeDecode exampleFileId = some exampleFileId := by decide +kernel
 
 end Fit.Props.C06
